@@ -97,7 +97,10 @@ func ruleOERR(c *Ctx, r *Report, rule string, scope func(*ssa.Function) bool) {
 						}
 						if len(x.Succs) == 0 {
 							if _, ok := x.Instrs[len(x.Instrs)-1].(*ssa.Return); ok {
-								lost = "the function returns at " + c.Pos(x.Instrs[len(x.Instrs)-1].Pos())
+								// a path that ends by returning another, non-nil error does not swallow anything
+								if !blockRejects(x) {
+									lost = "the function returns at " + c.Pos(x.Instrs[len(x.Instrs)-1].Pos())
+								}
 							}
 							continue
 						}
@@ -121,4 +124,66 @@ func usedAfter(v ssa.Value, call *ssa.Call) bool {
 		}
 	}
 	return false
+}
+
+// acceptedDiscards: explicit `_ =` discards of errors in the library on today's tree, each read and accepted:
+// the callee cannot fail for the freshly created boxes / consistent values it is given there.
+var acceptedDiscards = map[string]string{
+	"mp4.CreateFragment:mp4.MoofBox.AddChild":             "mfhd added to a new moof: AddChild only fails for a second mfhd/traf of the same kind",
+	"mp4.CreateFragment:mp4.MoofBox.AddChild#2":           "first traf of a new moof",
+	"mp4.CreateFragment:mp4.TrafBox.AddChild":             "tfhd added to a new traf",
+	"mp4.CreateFragment:mp4.TrafBox.AddChild#2":           "tfdt added to a new traf",
+	"mp4.CreateFragment:mp4.TrafBox.AddChild#3":           "trun added to a new traf",
+	"mp4.CreateMultiTrackFragment:mp4.MoofBox.AddChild":   "mfhd added to a new moof",
+	"mp4.CreateMultiTrackFragment:mp4.MoofBox.AddChild#2": "traf added to a new moof",
+	"mp4.CreateMultiTrackFragment:mp4.TrafBox.AddChild":   "tfhd added to a new traf",
+	"mp4.CreateMultiTrackFragment:mp4.TrafBox.AddChild#2": "tfdt added to a new traf",
+	"mp4.EncryptFragment:mp4.TrafBox.AddChild":            "saiz created by EncryptFragment for this traf",
+	"mp4.EncryptFragment:mp4.TrafBox.AddChild#2":          "saio created by EncryptFragment for this traf",
+	"mp4.EncryptFragment:mp4.TrafBox.AddChild#3":          "senc created by EncryptFragment for this traf",
+	"mp4.EncryptFragment:mp4.SencBox.AddSample":           "all IVs of one fragment have the same length by construction (cenc arm)",
+	"mp4.EncryptFragment:mp4.SencBox.AddSample#2":         "all IVs of one fragment have the same length by construction (cbcs arm)",
+}
+
+// ruleOERRLibrary — O-ERR over the library packages: every error returned by a callee is looked at on every path
+// that does not itself end in an error; explicit discards are limited to the accepted table.
+func ruleOERRLibrary(c *Ctx, r *Report) {
+	scratch := NewReport("oerr")
+	ruleOERR(c, scratch, "O-ERR", func(f *ssa.Function) bool {
+		if f.Pkg == nil || f.Synthetic != "" {
+			return false
+		}
+		if strings.HasSuffix(c.Fset.Position(f.Pos()).Filename, "_test.go") {
+			return false
+		}
+		for q := f; q != nil; q = q.Parent() {
+			if q.Pkg != nil {
+				for _, p := range c.Pkgs {
+					if p.Types == q.Pkg.Pkg {
+						return IsLib(p)
+					}
+				}
+			}
+		}
+		return false
+	})
+	n, acc := 0, 0
+	for _, o := range scratch.Obls {
+		n++
+		if o.Status == Discharged {
+			continue
+		}
+		k := strings.TrimPrefix(o.Key, "O-ERR:")
+		if why, ok := acceptedDiscards[k]; ok {
+			acc++
+			r.OK("O-ERR", k, o.Pos, "accepted discard: "+why)
+			continue
+		}
+		r.Bad("O-ERR", k, o.Pos, o.Detail)
+	}
+	if n < 800 {
+		r.Undecided("O-ERR", "scope", "", fmt.Sprintf("only %d error-returning calls found in the library", n))
+	} else {
+		r.OK("O-ERR", "scope", "", fmt.Sprintf("%d error-returning calls in the library packages: every error is tested, returned, wrapped or merged on every path that does not end in an error; %d accepted explicit discards", n, acc))
+	}
 }
